@@ -388,6 +388,63 @@ def detection_decision_table():
                   r.m and n_match == 1)
 
 
+@proof(['C03'], targets=[(FI, 'InspectWrapper.formats'),
+                         (FI, 'InspectWrapper.format')],
+       assumes=['per-inspector stability (complete stays complete, '
+                'format_match then keeps its value, a complete inspector '
+                'does not fail later) is discharged per class: '
+                'verdict_is_stable_once_complete (c02_inspectors), '
+                'vhdx_decision_is_not_revised (c07_vhdx), '
+                'vmdk_sparse_decision_is_not_revised (c02_vmdk)'])
+def decision_is_not_revised_by_reading_further():
+    """A decision reported before the end of the stream stays the same after
+    any further reads and after EOF - given that every inspector's
+    (complete, format_match) is stable once complete."""
+    M = load(FI)
+    with_raw = pick('raw_allowed', [True, False])
+    names = ['qcow2', 'vmdk', 'iso'] + (['raw'] if with_raw else [])
+    Fake, Boom, fakes = make_wrapper(M, names, None, None, None)
+    w = blank(M.InspectWrapper)
+    w._source = None
+    w._expected_format = None
+    w._inspectors = set(fakes)
+    w._errored_inspectors = set()
+    w._finished = False
+    for i in range(3):
+        fakes[i].c = fresh_bool('complete%d' % i)
+        fakes[i].m = fresh_bool('match%d' % i)
+    if with_raw:
+        fakes[3].c = True
+        fakes[3].m = True
+    first = 'error'
+    try:
+        first = w.format
+    except M.ImageFormatError:
+        pass
+    first_all = None if first is None or first == 'error' else w.formats
+    # ---- later: more data has been read, possibly EOF
+    for i in range(3):
+        c1 = fresh_bool('complete_later%d' % i)
+        m1 = fresh_bool('match_later%d' % i)
+        assume(implies(fakes[i].c, conj(c1, m1 == fakes[i].m)))
+        fakes[i].c = c1
+        fakes[i].m = m1
+    w._finished = fresh_bool('finished_later')
+    second = 'error'
+    try:
+        second = w.format
+    except M.ImageFormatError:
+        pass
+    if first is None:
+        return
+    if first == 'error':
+        check('no-revision/ambiguity-error-kept', second == 'error')
+    else:
+        check('no-revision/decision-kept', second is first)
+    if first != 'error':
+        check('no-revision/formats-kept', w.formats == first_all)
+
+
 @proof(['C03', 'C06'], targets=[(FI, 'InspectWrapper.__init__'),
                          (FI, 'get_inspector')])
 def allowed_formats_limit_the_inspector_set():
@@ -398,7 +455,10 @@ def allowed_formats_limit_the_inspector_set():
                                        ['vmdk'], ['iso', 'gpt', 'luks'],
                                        ('vhd', 'vhdx'), ['nonsense'], ALL])
     src = object()
-    w = M.InspectWrapper(src, None, allowed)
+    # the expected format plays no part in which formats are considered
+    expected = pick('expected_format', [None, 'raw', 'qcow2', 'vmdk',
+                                        'nonsense'])
+    w = M.InspectWrapper(src, expected, allowed)
     got = sorted([i.NAME for i in w._inspectors])
     if not allowed:
         want = sorted(ALL)
@@ -407,13 +467,67 @@ def allowed_formats_limit_the_inspector_set():
     check('init/inspector-set-is-allowed-subset', got == want)
     check('init/one-inspector-per-format',
           len(w._inspectors) == len(want))
-    check('init/state', w._source is src and w._expected_format is None
+    check('init/state', w._source is src and w._expected_format is expected
           and len(w._errored_inspectors) == 0 and w._finished == False)  # noqa
     check('init/registry-complete', sorted(M.ALL_FORMATS.keys()) == sorted(ALL)
           and all([M.get_inspector(n) is M.ALL_FORMATS[n] for n in ALL])
           and M.get_inspector('nope') is None)
     check('init/instances-of-registered-classes',
           all([isinstance(i, M.ALL_FORMATS[i.NAME]) for i in w._inspectors]))
+
+
+@proof(['C06', 'C01'], targets=[(FI, 'FileInspector.finish'),
+                                (FI, 'InspectWrapper._finish'),
+                                (FI, 'InspectWrapper.close'),
+                                (FI, 'InspectWrapper.__next__')])
+def finishing_twice_is_harmless():
+    """The wrapper finishes its inspectors when the source is exhausted AND
+    again in close(): with the real inspectors neither that, nor a further
+    next() on the exhausted wrapper, nor a second close() may raise."""
+    M = load(FI)
+    name = pick('format', ['raw', 'qcow2', 'qed', 'vhd', 'vhdx', 'vmdk',
+                           'vdi', 'iso', 'gpt', 'luks'])
+    insp = M.ALL_FORMATS[name]()
+    insp.eat_chunk(b'abc')
+    insp.finish()
+    insp.finish()
+    check('finish/idempotent', insp._finished == True)  # noqa
+    hist = pick('history', ['iterate-then-close', 'close-twice',
+                            'next-after-exhaustion'])
+    closed = []
+
+    class Src:
+        def __init__(self):
+            self.items = iter([b'ab', b'', b'cd'])
+
+        def __iter__(self):
+            return self
+
+        def __next__(self):
+            return next(self.items)
+
+        def close(self):
+            closed.append(1)
+    exp = pick('expected_format', [None, 'raw'])
+    w = M.InspectWrapper(Src(), exp, [name, 'raw'])
+    got = [c for c in w]
+    check('finish/iteration-delivers-every-chunk',
+          got == [b'ab', b'', b'cd'])
+    if hist == 'iterate-then-close':
+        w.close()
+    elif hist == 'close-twice':
+        w.close()
+        w.close()
+    else:
+        stopped = False
+        try:
+            next(w)
+        except StopIteration:
+            stopped = True
+        check('finish/exhausted-wrapper-keeps-raising-stopiteration',
+              stopped)
+        w.close()
+    check('finish/source-closed', len(closed) >= 1)
 
 
 CANARIES = [
